@@ -61,3 +61,15 @@ Theorem C15_can_out_marshal_model_is_the_source : forall bk n, (n <= length bk)%
   Val (canout_marshal (map unconv (firstn n bk)), None, (bk, Z.of_nat n)).
 Proof. exact can_marshal_agrees. Qed.
 Print Assumptions C15_can_out_marshal_model_is_the_source.
+
+(* The model IS the code (bus configuration): CANConfig.MarshalBinary / UnmarshalBinary as regenerated from canconfig.go
+   (Gen/StructFns.v; the receiver is a non-nil pointer) are can_marshal / can_unmarshal, for every baud-rate code of the
+   int8 type and every payload. *)
+Require Import Gen.StructFns Tie.StructAgree.
+Theorem C15_can_config_model_is_the_source :
+  (forall e b, (-128 <= b < 128)%Z -> g_CANConfig_MarshalBinary (e, b) = Val (can_marshal e b, None, (e, b))) /\
+  (forall data st, wf_bytes data ->
+     g_CANConfig_UnmarshalBinary data st =
+     match can_unmarshal data with Ok (e, b) => Val (None, (e, b)) | Err _ => Val (Some 2%Z, st) | _ => Pan end).
+Proof. split; [exact canconfig_marshal_agrees|exact canconfig_unmarshal_agrees]. Qed.
+Print Assumptions C15_can_config_model_is_the_source.
